@@ -130,6 +130,24 @@ ASSUMPTIONS = [
     "R10.3: a cfg.Variable is always truthy, so `if var` / `if not var` on "
     "the lookup result count as `is not None` / `is None`",
 ]
+# rules/c10_returns.py (R10.23)
+EXPLANATION += (
+    "  R10.23 (rules/c10_returns.py) R10.1's rows obligation on EVERY return "
+    "path: in every function that contains an MROMerge call (GetBasesInMRO, "
+    "_ComputeMRO, Class.compute_mro, the rewrite engine's SimpleClass.mro; "
+    "plus same-module functions that return a call of one) each `return E` is "
+    "a merge value (the MROMerge call, through tuple()/list(), one-generator "
+    "comprehensions over it, both arms of a conditional expression, every "
+    "reaching definition of a local, the memo the function itself stores "
+    "merge values into - mros[t], self._mro - and calls of merging functions "
+    "of the module), the trivial row [cls] of the function's first parameter, "
+    "or None/empty; a value built from a base's `.mro`, from the bases, or "
+    "that combines a merge result with further rows is a violation (a fast "
+    "path around the merge never checks the local precedence order), any "
+    "other expression an analysis error.  Blind spots: the conditions under "
+    "which the trivial row is returned are not decided (R10.8 looks at the "
+    "rewrite engine's); a merge whose result is discarded and replaced inside "
+    "a helper outside the module is not followed.")
 # rules/c10_quantifiers.py (R10.20, R10.21)
 EXPLANATION += (
     "  R10.20 (rules/c10_quantifiers.py) the quantifier around the C3 tail "
